@@ -72,6 +72,7 @@ def norm_stream(S, directed):
 
 def run_case(case, rec):
     import dynetx as dn
+    case = dict(case, nodes=iocommon.spaced_labels(case['nodes'], case['io']['delim']))
     d = Driver(case)
     for op in case.get('ops', []):
         r = d.step(op)
@@ -81,6 +82,10 @@ def run_case(case, rec):
     G, M = d.G, d.M
     io_ = dict(case['io'])
     if io_['enc'] == 'ascii' and not iocommon.ascii_only(d.nodes):
+        # unencodable ids: the write is attempted anyway (it must not disturb later writes), then utf-8 is used
+        with iocommon.Scratch() as sc0:
+            safe(iocommon.write_with, dn.write_interactions, G, sc0, io_['target'], delimiter=io_['delim'], encoding='ascii')
+        rec.classify('unencodable write attempted first')
         io_['enc'] = 'utf-8'
     delim, enc, target = io_['delim'], io_['enc'], io_['target']
     nt = iocommon.nodetype_for(d.nodes, len(case['ops']))
